@@ -364,6 +364,9 @@ func runC19(res *Result, tier string, seed int64, replay string) {
 			// comments with unpaired quotes next to class-bearing tags, unquoted values with slashes, tags over several lines
 			`<!-- don't --><p class="ka">after comment</p>`, `<p class="kb">before</p><!-- it's "x -->`, `<!-- a > b --><span class='ka'>gt</span>`,
 			`<a href=http://x/a class=ka>slash</a>`, `<img src=i.png class=kb>`, "<p\n  class=\"ka\"\n  id='n'\n>lines</p>", `<p class  =  'ka kb'   id = x >spaces</p>`,
+			// white space between '=' and the opening quote, with a '>' inside the quoted value — before and behind the class
+			`<p class="ka" title = "a>b">one</p>`, `<p title= 'x > y' class="kb">two</p>`, "<span data-x =\t\"1>2\" class='ka'>t</span>", "<a class=\"ka\" href =\n\"u?a>b\" id=z>l</a>",
+			`<p title = "it's > x" class="ka">q</p>`,
 			`<p id="a" class="ka" hidden data-e="">mixed</p>`, `<P Class="ka" STYLE="Top:0">case</P>`, `<u class="ka" style="">empty style</u>`, `<em class="ka" style="color:blue">no semicolon</em>`,
 		}
 		carriers := []struct{ name, open, close string }{
